@@ -486,6 +486,26 @@ Proof.
 Qed.
 Print Assumptions deliver_native_supply.
 
+(* the sender's own credit (a withdrawal) fits whenever the sender holds less than 2^255: AddBalance
+   refuses amounts of 2^255 and more *)
+Lemma room_from_exec s1 s2 t l' lim' r :
+  validated_of s1 r t = Ok lim' -> evm_path_of t r = false -> exec_native s2 t = Ok l' ->
+  payload_wf t -> bal_range (work s2) -> bal_of (work s2) (t_from t) < two255 ->
+  room_for (work s2) t (t_from t).
+Proof.
+  intros Hv Hp He Hpl Hr Hlt. pose proof two255_two256 as H25. pose proof two256_pos.
+  destruct (validated_native_types _ _ _ _ Hv Hp) as [Hty|[Hty|[Hty|[Hty|[Hty|[Hty|Hty]]]]]];
+    unfold room_for, tx_in; rewrite Hty;
+    cbn [Z.eqb Pos.eqb TRX_TRANSFER TRX_STAKING TRX_UNSTAKING TRX_PROPOSAL TRX_VOTING TRX_SETDOC TRX_WITHDRAW];
+    try (right; lia).
+  - destruct (decide (t_from t = t_to t)); [left; auto|right; lia].
+  - rewrite exec_native_withdraw in He by exact Hty.
+    apply stake_execute_withdraw_inv in He as (req & r0 & r' & x & x' & Hpay & _ & Hx & Hadd & _); [|exact Hty].
+    specialize (Hpl req Hty Hpay). rewrite Hpay.
+    apply add_balance_Some in Hadd as (Hreq & _); [|lia].
+    right. destruct (decide (t_from t = t_from t)); [lia|congruence].
+Qed.
+
 (* ---- a failed delivery *)
 Lemma common_validation1_None sender t :
   common_validation1 sender t = None -> add256 (fee_of t) (t_amount t) <= a_bal sender /\ a_nonce sender = t_nonce t.
@@ -518,23 +538,27 @@ Proof.
 Qed.
 
 (* C02, a failed (or panicking) delivery: at most an empty account appears; supply is unchanged.
-   [params_ok] and the room of the sender exclude the one branch of postRunTrx in which the
+   [params_ok] and a sender balance below 2^255 exclude the one branch of postRunTrx in which the
    transaction has been executed but the fee cannot be taken. *)
 Theorem deliver_fail_supply s t s' r :
   deliver s t = (s', r) -> (forall g, r <> Ok g) ->
   tx_wf t -> payload_wf t -> params_ok (gparams s) -> bal_range (work s) ->
-  room_for (work s) t (t_from t) ->
-  supply (work s') = supply (work s).
+  bal_of (work s) (t_from t) < two255 ->
+  supply (work s') = supply (work s) /\ bal_range (work s') /\ frozen (work s') = frozen (work s).
 Proof.
-  intros Hd Hnok Hwf Hpl Hpar Hr Hroom.
-  rewrite deliver_eq in Hd. destruct (accts (work s) !! t_from t) as [sender|] eqn:Es; [|injection Hd as <- <-; reflexivity].
+  intros Hd Hnok Hwf Hpl Hpar Hr Hlt.
+  rewrite deliver_eq in Hd.
+  destruct (accts (work s) !! t_from t) as [sender|] eqn:Es; [|injection Hd as <- <-; auto].
   unfold deliver_body in Hd.
-  assert (H1s : supply (work (pre_state s t)) = supply (work s)) by (rewrite pre_state_work; apply supply_find_or_new).
+  assert (H1s : supply (work (pre_state s t)) = supply (work s) /\ bal_range (work (pre_state s t)) /\
+                frozen (work (pre_state s t)) = frozen (work s)).
+  { rewrite pre_state_work. split; [apply supply_find_or_new|]. split; [apply bal_range_find_or_new; exact Hr|].
+    apply find_or_new_spec. }
   destruct (common_validation0 (gparams s) t) as [e|] eqn:E0; [injection Hd as <- <-; exact H1s|].
   destruct (common_validation1 sender t) as [e|] eqn:E1; [injection Hd as <- <-; exact H1s|].
   destruct (validated_of (pre_state s t) (receiver_of s t) t) as [lim'|e|p] eqn:Ev; [|injection Hd as <- <-; exact H1s..].
   set (s2 := with_lim (pre_state s t) lim') in *.
-  assert (H2s : supply (work s2) = supply (work s)) by exact H1s.
+  assert (H2s : supply (work s2) = supply (work s) /\ bal_range (work s2) /\ frozen (work s2) = frozen (work s)) by exact H1s.
   destruct (evm_path_of t (receiver_of s t)) eqn:Ep.
   - destruct (evm_execute (work s2) t) as [[l' gas]|e|p]; injection Hd as <- <-; [|exact H2s..].
     exfalso. apply (Hnok gas). reflexivity.
@@ -544,10 +568,10 @@ Proof.
     destruct (sub_balance snd' (fee_of t)) as [snd''|] eqn:Esb; [injection Hd as <- <-; exfalso; apply (Hnok (t_gas t)); reflexivity|].
     exfalso.
     assert (Hw2 : work s2 = (find_or_new (work s) (t_to t)).1) by reflexivity.
-    assert (Hr0 : bal_range (work s2)) by (rewrite Hw2; apply bal_range_find_or_new; exact Hr).
+    destruct H2s as (_ & Hr0 & _).
     destruct (exec_native_balances _ _ _ _ _ _ Ev Ep Ee Hwf Hpl Hr0) as (Hr' & Hbal).
     assert (Hroom2 : room_for (work s2) t (t_from t)).
-    { unfold room_for in *. rewrite Hw2, bal_of_find_or_new. exact Hroom. }
+    { apply (room_from_exec _ _ _ _ _ _ Ev Ep Ee Hpl Hr0). rewrite Hw2, bal_of_find_or_new. exact Hlt. }
     specialize (Hbal _ Hroom2). rewrite Hw2, bal_of_find_or_new in Hbal.
     destruct (decide (t_from t = t_from t)); [|congruence].
     rewrite (bal_of_lookup _ _ _ Esn), (bal_of_lookup _ _ _ Es) in Hbal.
@@ -709,7 +733,7 @@ Proof.
   cbn [foldl]. eapply same_money_trans; [|apply IH].
   generalize (List.filter (fun kp : hash * proposal => match p_voters kp.2 !! a with Some _ => true | None => false end)
                 (sorted_items (props l))). intros targets.
-  generalize l at 1 3. induction targets as [|kp targets IHt]; intros l0; [apply same_money_refl|].
+  clear IH. revert l. induction targets as [|kp targets IHt]; intros l0; [apply same_money_refl|].
   cbn [foldl]. eapply same_money_trans; [|apply IHt].
   destruct (props l0 !! kp.1); [repeat split|apply same_money_refl].
 Qed.
@@ -732,7 +756,7 @@ Lemma remove_stake_props h l :
   (s_hash <$> remove_stake h l) `sublist_of` (s_hash <$> l) /\
   (pow_nonneg l -> pow_nonneg (remove_stake h l) /\ sum_power (remove_stake h l) <= sum_power l).
 Proof.
-  induction l as [|s l (IH1 & IH2)]; simpl.
+  induction l as [|s l (IH1 & IH2)]; cbn [remove_stake].
   - split; [constructor|]. intros H. split; [exact H|lia].
   - destruct (s_hash s =? h)%N.
     + split; [rewrite fmap_cons; apply sublist_cons; reflexivity|].
@@ -761,6 +785,26 @@ Proof.
   apply Z.div_le_upper_bound; nia.
 Qed.
 
+Definition slash_one (ratio : Z) (s : stake) : stake :=
+  if (s_power s * ratio) `quot` 100 <? 1 then s else with_power (s_power s - (s_power s * ratio) `quot` 100) s.
+
+Lemma slash_map_props ratio l :
+  0 <= ratio <= 100 ->
+  s_hash <$> map (slash_one ratio) l = s_hash <$> l /\
+  (pow_nonneg l -> pow_nonneg (map (slash_one ratio) l) /\ sum_power (map (slash_one ratio) l) <= sum_power l).
+Proof.
+  intros Hr. induction l as [|s l (IH1 & IH2)]; cbn [map].
+  - split; [reflexivity|]. intros H. split; [exact H|lia].
+  - split.
+    + rewrite !fmap_cons, IH1. unfold slash_one. destruct (_ <? 1); reflexivity.
+    + intros H. apply Forall_cons in H as (Hs & Hl). destruct (IH2 Hl) as (Hn & Hle).
+      pose proof (quot_slash_bounds _ _ Hs Hr) as Hq.
+      unfold slash_one at 1 3. set (q := (s_power s * ratio) `quot` 100) in *. clearbody q.
+      split.
+      * apply Forall_cons. split; [|exact Hn]. destruct (q <? 1); cbn [s_power with_power]; lia.
+      * rewrite !sum_power_cons. destruct (q <? 1); cbn [s_power with_power]; lia.
+Qed.
+
 Lemma slash_all_props d ratio :
   0 <= ratio <= 100 -> 
   (s_hash <$> d_stakes (slash_all d ratio).1) `sublist_of` (s_hash <$> d_stakes d) /\
@@ -769,21 +813,12 @@ Lemma slash_all_props d ratio :
      sum_power (d_stakes (slash_all d ratio).1) <= sum_power (d_stakes d)).
 Proof.
   intros Hr. unfold slash_all. cbn [fst d_stakes].
-  set (small := fun s : stake => (s_power s * ratio) `quot` 100 <? 1).
-  set (slashed := map (fun s => if small s then s else with_power (s_power s - (s_power s * ratio) `quot` 100) s) (d_stakes d)).
-  destruct (foldl_remove_props (List.filter small (d_stakes d)) slashed) as (F1 & F2).
-  assert (Hh : s_hash <$> slashed = s_hash <$> d_stakes d).
-  { unfold slashed. induction (d_stakes d) as [|s l IH]; [reflexivity|].
-    cbn [map]. rewrite !fmap_cons, IH. destruct (small s); reflexivity. }
+  change (map _ (d_stakes d)) with (map (slash_one ratio) (d_stakes d)).
+  set (removing := List.filter _ (d_stakes d)).
+  destruct (foldl_remove_props removing (map (slash_one ratio) (d_stakes d))) as (F1 & F2).
+  destruct (slash_map_props ratio (d_stakes d) Hr) as (Hh & Hsl).
   split; [rewrite <- Hh; exact F1|].
-  intros Hn.
-  assert (Hsl : pow_nonneg slashed /\ sum_power slashed <= sum_power (d_stakes d)).
-  { unfold slashed. induction Hn as [|s l Hs Hl (IH1 & IH2)]; [split; [constructor|reflexivity]|].
-    cbn [map]. pose proof (quot_slash_bounds _ _ Hs Hr) as Hq.
-    split.
-    - apply Forall_cons. split; [|exact IH1]. destruct (small s); cbn; lia.
-    - rewrite !sum_power_cons. destruct (small s); cbn; lia. }
-  destruct Hsl as (Hsn & Hsle). destruct (F2 Hsn) as (Hkn & Hkle). split; [exact Hkn|lia].
+  intros Hn. destruct (Hsl Hn) as (Hsn & Hsle). destruct (F2 Hsn) as (Hkn & Hkle). split; [exact Hkn|lia].
 Qed.
 
 (* ---- StakeCtrler slashing over the evidence list; power destroyed by it *)
@@ -848,7 +883,8 @@ Lemma stake_punish_props ratio evi : forall l,
   bonded_power l' = bonded_power l - slashed_by l ratio evi /\ 0 <= slashed_by l ratio evi.
 Proof.
   induction evi as [|a evi IH]; intros l Hr Hu Hn; cbv zeta.
-  - unfold stake_punish. simpl. repeat split; try assumption; lia.
+  - unfold stake_punish. cbn [foldl slashed_by].
+    refine (conj eq_refl (conj eq_refl (conj eq_refl (conj Hu (conj Hn (conj _ _)))))); lia.
   - rewrite stake_punish_cons. cbn [slashed_by]. destruct (dels l !! a) as [d|] eqn:Ed.
     + destruct (slash_all_props d ratio Hr) as (Hsub & Hpow). destruct (Hpow (Hn _ _ Ed)) as (Hn' & Hle).
       set (l1 := set_dels l (<[a := (slash_all d ratio).1]> (dels l))) in *.
@@ -862,4 +898,882 @@ Proof.
       { unfold l1. rewrite bonded_power_set_dels_insert. unfold addr in *. rewrite Ed. reflexivity. }
       refine (conj Ha (conj Hf (conj Hrw (conj Hu' (conj Hn'' (conj _ _)))))); lia.
     + apply IH; assumption.
+Qed.
+
+(* ---- jailing: all stakes of a delegatee move into the frozen map *)
+Lemma freeze_all_subseteq refund ss fr :
+  (forall s, s ∈ ss -> fr !! s_hash s = None) -> fr ⊆ freeze_all fr refund ss.
+Proof.
+  intros Hfresh. apply map_subseteq_spec. intros k v Hk.
+  rewrite freeze_all_lookup_other; [exact Hk|].
+  intros Hin. apply elem_of_list_fmap in Hin as (s & -> & Hs). rewrite (Hfresh s Hs) in Hk. discriminate.
+Qed.
+
+Lemma freeze_all_perm refund ss : forall fr,
+  NoDup (s_hash <$> ss) -> (forall s, s ∈ ss -> fr !! s_hash s = None) ->
+  map_to_list (freeze_all fr refund ss) ≡ₚ ((fun s => (s_hash s, with_refund refund s)) <$> ss) ++ map_to_list fr.
+Proof.
+  induction ss as [|s ss IH]; intros fr Hnd Hfresh; [reflexivity|].
+  rewrite freeze_all_cons, fmap_cons in *. apply NoDup_cons in Hnd as (Hnotin & Hnd).
+  rewrite IH; [|exact Hnd|].
+  - rewrite map_to_list_insert by (apply Hfresh, elem_of_cons; auto).
+    cbn [app]. symmetry. apply Permutation_middle.
+  - intros s' Hs'. rewrite lookup_insert_ne.
+    + apply Hfresh, elem_of_cons. auto.
+    + intros Heq. apply Hnotin. rewrite Heq. apply elem_of_list_fmap. exists s'. auto.
+Qed.
+
+Lemma freeze_all_keys refund ss : forall fr,
+  (forall h s, fr !! h = Some s -> s_hash s = h) ->
+  (forall h s, freeze_all fr refund ss !! h = Some s -> s_hash s = h).
+Proof.
+  induction ss as [|s0 ss IH]; intros fr Hk; [exact Hk|].
+  rewrite freeze_all_cons. apply IH. intros h s. destruct (decide (s_hash s0 = h)) as [<-|Hne].
+  - rewrite lookup_insert. intros [= <-]. reflexivity.
+  - rewrite lookup_insert_ne by exact Hne. apply Hk.
+Qed.
+
+Lemma jail_props l a d refund :
+  dels l !! a = Some d -> hashes_unique l ->
+  let l' := set_dels (set_frozen l (freeze_all (frozen l) refund (d_stakes d))) (delete a (dels l)) in
+  hashes_unique l' /\ bonded_power l' + frozen_power l' = bonded_power l + frozen_power l /\
+  frozen l ⊆ frozen l'.
+Proof.
+  intros Hd Hu. cbv zeta.
+  destruct (hashes_unique_delegatee _ _ _ Hu Hd) as (Hnd & Hfresh).
+  destruct Hu as (Hall & Hk).
+  split; [split|split]; [| | |cbn [frozen set_dels set_frozen]; apply freeze_all_subseteq; exact Hfresh].
+  - pose proof (freeze_all_perm refund _ _ Hnd Hfresh) as Hperm.
+    rewrite (bonded_stakes_delete _ _ _ Hd) in Hall.
+    change (bonded_stakes (set_dels (set_frozen l ?m) (delete a (dels l)))) with (bonded_stakes (set_dels l (delete a (dels l)))).
+    set (B := bonded_stakes (set_dels l (delete a (dels l)))) in *.
+    unfold frozen_stakes in *. cbn [frozen set_dels set_frozen].
+    rewrite Hperm. rewrite !fmap_app in *.
+    assert (Hss : s_hash <$> ((fun kv : hash * stake => kv.2) <$> ((fun s => (s_hash s, with_refund refund s)) <$> d_stakes d))
+                  = s_hash <$> d_stakes d).
+    { rewrite <- !list_fmap_compose. apply list_fmap_ext. intros i s _. reflexivity. }
+    rewrite Hss. rewrite <- app_assoc in Hall.
+    rewrite (Permutation_app_comm (s_hash <$> B)). rewrite <- app_assoc.
+    assert (Hp : forall x y z : list hash, x ++ z ++ y ≡ₚ x ++ y ++ z)
+      by (intros; apply Permutation_app_head, Permutation_app_comm).
+    rewrite Hp. exact Hall.
+  - cbn [frozen set_dels set_frozen]. apply freeze_all_keys. exact Hk.
+  - rewrite !bonded_power_map_sum, !frozen_power_map_sum. cbn [dels frozen set_dels set_frozen].
+    rewrite freeze_all_sum by assumption. rewrite map_sum_delete. unfold addr in *. rewrite Hd. cbn [from_option]. lia.
+Qed.
+
+(* ---- reward / missed-block processing over the last commit's votes *)
+Definition votes_step (g : params) (old : ledgers) (h : Z) (acc : res (ledgers * Z)) (v : addr * Z * bool)
+  : res (ledgers * Z) :=
+  match acc with
+  | Ok (l, issued) =>
+    let '(a, pw, signed) := v in
+    if signed : bool then
+      match dels old !! a with
+      | None => Ok (l, issued)
+      | Some d => if negb (d_total d =? pw) then Ok (l, issued)
+                  else match reward_to g h (rewards l) d with
+                       | Ok (rw, iss) => Ok (set_rewards l rw, add256 issued iss)
+                       | Err e => Err e | Panic p => Panic p end
+      end
+    else
+      match dels l !! a with
+      | None => Ok (l, issued)
+      | Some d =>
+          let sh := h - 1 in
+          let m1 := mark (d_marks d) sh in
+          let s0 := if sh - g_signedBlocksWindow g <? 0 then 0 else sh - g_signedBlocksWindow g in
+          let '(cnt, m2) := count_in_window m1 s0 sh in
+          let d1 := {| d_addr := d_addr d; d_self := d_self d; d_total := d_total d; d_stakes := d_stakes d; d_marks := m2 |} in
+          let l1 := set_dels l (<[a := d1]> (dels l)) in
+          if g_signedBlocksWindow g - cnt <? g_minSignedBlocks g then
+            let '(_, ss) := del_all_stakes d1 in
+            let l2 := set_frozen l1 (freeze_all (frozen l1) (h + g_lazyRewardBlocks g) ss) in
+            Ok (set_dels l2 (delete a (dels l2)), issued)
+          else Ok (l1, issued)
+      end
+  | x => x end.
+
+Lemma process_votes_eq s l h votes :
+  process_votes s l h votes =
+  match ledgers_at s (hgt_of_power h) with
+  | None => Panic P_BEGINBLOCK
+  | Some old => foldl (votes_step (gparams s) old h) (Ok (l, 0)) votes
+  end.
+Proof. reflexivity. Qed.
+
+(* the step invariant: stake hashes stay unique and value is only moved *)
+Definition moved (x y : ledgers * Z) : Prop :=
+  hashes_unique x.1 -> hashes_unique y.1 /\ supply y.1 = supply x.1 /\ accts y.1 = accts x.1 /\ frozen x.1 ⊆ frozen y.1.
+
+Lemma votes_step_moved g old h x v y : votes_step g old h (Ok x) v = Ok y -> moved x y.
+Proof.
+  destruct x as [l issued]. destruct v as [[a pw] signed]. unfold votes_step, moved. cbn [fst].
+  destruct signed.
+  - destruct (dels old !! a) as [d|]; [|intros [= <-]; auto 10].
+    destruct (negb (d_total d =? pw)); [intros [= <-]; auto 10|].
+    destruct (reward_to g h (rewards l) d) as [[rw iss]|e|p]; [|discriminate..].
+    intros [= <-] Hu. cbn [fst]. split; [|split; [reflexivity|split; reflexivity]].
+    apply (hashes_unique_same l); [reflexivity|reflexivity|exact Hu].
+  - destruct (dels l !! a) as [d|] eqn:Ed; [|intros [= <-]; auto 10]. cbv zeta.
+    destruct (count_in_window _ _ _) as [cnt m2].
+    set (d1 := {| d_addr := d_addr d; d_self := d_self d; d_total := d_total d; d_stakes := d_stakes d; d_marks := m2 |}).
+    set (l1 := set_dels l (<[a := d1]> (dels l))).
+    assert (H1 : hashes_unique l -> hashes_unique l1 /\ supply l1 = supply l).
+    { intros Hu. split.
+      - apply (hashes_unique_update_del _ _ _ _ Hu Ed). reflexivity.
+      - apply supply_parts; [reflexivity|]. unfold l1.
+        rewrite bonded_power_set_dels_insert. unfold addr in *. rewrite Ed. cbn [from_option d_stakes d1].
+        change (frozen_power (set_dels l ?m)) with (frozen_power l). lia. }
+    destruct (g_signedBlocksWindow g - cnt <? g_minSignedBlocks g).
+    + unfold del_all_stakes. cbn [d_stakes d1]. intros [= <-] Hu. cbn [fst].
+      destruct (H1 Hu) as (Hu1 & Hs1).
+      assert (Hd1 : dels l1 !! a = Some d1) by (unfold l1; rewrite dels_set_dels; apply lookup_insert).
+      destruct (jail_props l1 a d1 (h + g_lazyRewardBlocks g) Hd1 Hu1) as (Hu2 & Hbf & Hsub).
+      cbn [d_stakes d1] in Hu2, Hbf, Hsub.
+      change (dels (set_frozen l1 ?m)) with (dels l1).
+      split; [exact Hu2|]. split; [|split; [reflexivity|exact Hsub]].
+      rewrite <- Hs1. apply supply_parts; [reflexivity|exact Hbf].
+    + intros [= <-] Hu. cbn [fst]. destruct (H1 Hu) as (Hu1 & Hs1). split; [exact Hu1|]. split; [exact Hs1|]. split; reflexivity.
+Qed.
+
+Lemma votes_step_stuck g old h : res_stuck (votes_step g old h).
+Proof. split; reflexivity. Qed.
+
+Lemma process_votes_moved s l h votes l3 issued :
+  process_votes s l h votes = Ok (l3, issued) -> hashes_unique l ->
+  hashes_unique l3 /\ supply l3 = supply l /\ accts l3 = accts l /\ frozen l ⊆ frozen l3.
+Proof.
+  rewrite process_votes_eq. destruct (ledgers_at s (hgt_of_power h)) as [old|]; [|discriminate].
+  intros Hf. apply (foldl_res_ind (votes_step (gparams s) old h) moved) in Hf.
+  - exact Hf.
+  - apply votes_step_stuck.
+  - intros x Hu. auto 10.
+  - intros x y z Hxy Hyz Hu. destruct (Hxy Hu) as (Hu1 & Hs1 & Ha1 & Hf1). destruct (Hyz Hu1) as (Hu2 & Hs2 & Ha2 & Hf2).
+    split; [exact Hu2|]. split; [congruence|]. split; [congruence|]. etransitivity; eassumption.
+  - intros x v y. apply votes_step_moved.
+Qed.
+
+(* C02, begin of block: the only value destroyed is the slashed power; issuing rewards adds to
+   the reward ledger, which is not part of the supply until withdrawn; jailing moves bonded
+   stake into the frozen map one to one (fresh keys by [hashes_unique]).  Holds whether the
+   vote processing succeeds or not. *)
+Theorem begin_block_supply s hd s' r :
+  begin_block s hd = (s', r) -> h_height hd = last_height s + 1 ->
+  0 <= g_slashRatio (gparams s) <= 100 -> hashes_unique (work s) -> bonded_nonneg (work s) ->
+  supply (work s') = supply (work s) - amountPerPower * slashed_power s hd /\ 0 <= slashed_power s hd /\
+  accts (work s') = accts (work s) /\ hashes_unique (work s') /\ frozen (work s) ⊆ frozen (work s').
+Proof.
+  intros Hb Hh Hpar Hu Hrg. unfold begin_block in Hb. rewrite Hh, Z.eqb_refl in Hb. cbn [negb] in Hb. cbv zeta in Hb.
+  set (ratio := g_slashRatio (gparams s)) in *.
+  assert (Hratio : 0 <= ratio <= 100) by exact Hpar.
+  pose proof (gov_punish_money (work s) ratio (h_evidence hd)) as Hm.
+  set (l1 := gov_punish (work s) ratio (h_evidence hd)) in *.
+  pose proof Hm as (Ha1 & Hd1 & Hf1 & _).
+  assert (Hu1 : hashes_unique l1) by (apply (hashes_unique_same (work s)); assumption).
+  assert (Hn1 : bonded_nonneg l1).
+  { intros a d. rewrite Hd1. apply Hrg. }
+  destruct (stake_punish_props ratio (h_evidence hd) l1 Hratio Hu1 Hn1) as (Ha2 & Hf2 & _ & Hu2 & _ & Hb2 & Hnn).
+  set (l2 := stake_punish l1 ratio (h_evidence hd)) in *.
+  assert (Hs2 : supply l2 = supply (work s) - amountPerPower * slashed_power s hd).
+  { unfold supply. rewrite (total_balance_same _ _ Ha2), (total_balance_same _ _ Ha1).
+    rewrite (frozen_power_same _ _ Hf2), (frozen_power_same _ _ Hf1), Hb2, (bonded_power_same _ _ Hd1).
+    unfold slashed_power. fold ratio l1. lia. }
+  assert (Hfin2 : supply l2 = supply (work s) - amountPerPower * slashed_power s hd /\ 0 <= slashed_power s hd /\
+                  accts l2 = accts (work s) /\ hashes_unique l2 /\ frozen (work s) ⊆ frozen l2).
+  { split; [exact Hs2|]. split; [exact Hnn|]. split; [congruence|]. split; [exact Hu2|]. rewrite Hf2, Hf1. reflexivity. }
+  destruct (h_votes hd) as [|v vs]; [injection Hb as <- <-; exact Hfin2|].
+  match type of Hb with context [process_votes ?a ?b ?c ?d] =>
+    destruct (process_votes a b c d) as [[l3 issued]|e|p] eqn:Ev end;
+    [|injection Hb as <- <-; exact Hfin2..].
+  injection Hb as <- <-. cbn [work with_work].
+  apply process_votes_moved in Ev as (Hu3 & Hs3 & Ha3 & Hf3); [|exact Hu2].
+  split; [rewrite Hs3; exact Hs2|]. split; [exact Hnn|]. split; [congruence|]. split; [exact Hu3|].
+  rewrite <- Hf1, <- Hf2. exact Hf3.
+Qed.
+Print Assumptions begin_block_supply.
+
+(* ================================================================== histories *)
+(* ABCI phases of the block cycle *)
+Inductive phase := PIdle | POpen | PEnded.
+
+(* ghost totals of a run: rewards withdrawn, power destroyed by slashing, fees not paid out *)
+Record ghost := { gh_withdrawn : Z; gh_slashed : Z; gh_burned : Z }.
+Definition ghost0 : ghost := {| gh_withdrawn := 0; gh_slashed := 0; gh_burned := 0 |}.
+
+(* fees collected in the open block, not yet paid *)
+Definition pending (p : phase) (s : state) : Z := match p with POpen => b_feesum (bctx s) | _ => 0 end.
+
+(* one step of a live node: the operations come in ABCI order, BeginBlock and EndBlock answer
+   without error (otherwise the node halts and the history ends); deliveries may fail *)
+Definition hstep (x : state * phase * ghost) (o : sop) : option (state * phase * ghost) :=
+  let '(s, p, gh) := x in
+  match p, o with
+  | PIdle, SBegin hd =>
+      if h_height hd =? last_height s + 1 then
+        match begin_block s hd with
+        | (s', Ok _) => Some (s', POpen, {| gh_withdrawn := gh_withdrawn gh;
+                                            gh_slashed := gh_slashed gh + slashed_power s hd;
+                                            gh_burned := gh_burned gh |})
+        | _ => None end
+      else None
+  | POpen, SDeliver t =>
+      match deliver s t with
+      | (s', Ok _) => Some (s', POpen, {| gh_withdrawn := gh_withdrawn gh + withdrawn_of t;
+                                          gh_slashed := gh_slashed gh; gh_burned := gh_burned gh |})
+      | (s', _) => Some (s', POpen, gh) end
+  | POpen, SEnd =>
+      match end_block s with
+      | (s', Ok _) => Some (s', PEnded, {| gh_withdrawn := gh_withdrawn gh; gh_slashed := gh_slashed gh;
+                                           gh_burned := gh_burned gh + (b_feesum (bctx s) - paid_fees (bctx s)) |})
+      | _ => None end
+  | PEnded, SCommit => Some (commit s, PIdle, gh)
+  | _, _ => None
+  end.
+
+Fixpoint hrun (x : state * phase * ghost) (ops : list sop) : option (state * phase * ghost) :=
+  match ops with
+  | [] => Some x
+  | o :: r => match hstep x o with Some y => hrun y r | None => None end
+  end.
+
+Lemma hstep_sstep s p gh o s' p' gh' : hstep (s, p, gh) o = Some (s', p', gh') -> s' = sstep s o.
+Proof.
+  unfold hstep, sstep. destruct p, o as [hd|t| |]; try discriminate.
+  - destruct (h_height hd =? last_height s + 1); [|discriminate].
+    destruct (begin_block s hd) as [s1 [x|e|pp]]; [|discriminate..]. intros [= <- _ _]. reflexivity.
+  - destruct (deliver s t) as [s1 [x|e|pp]]; intros [= <- _ _]; reflexivity.
+  - destruct (end_block s) as [s1 [x|e|pp]]; [|discriminate..]. intros [= <- _ _]. reflexivity.
+  - intros [= <- _ _]. reflexivity.
+Qed.
+
+Lemma hrun_srun ops : forall s p gh s' p' gh', hrun (s, p, gh) ops = Some (s', p', gh') -> s' = srun s ops.
+Proof.
+  induction ops as [|o ops IH]; intros s p gh s' p' gh'; cbn [hrun].
+  - intros [= <- _ _]. reflexivity.
+  - destruct (hstep (s, p, gh) o) as [[[s1 p1] gh1]|] eqn:E; [|discriminate].
+    intros H. apply hstep_sstep in E. subst s1. apply IH in H. exact H.
+Qed.
+
+(* the C02 equation at the end of a history *)
+Definition C02_equation (g : genesis) (s : state) (p : phase) (gh : ghost) : Prop :=
+  supply (work s) + pending p s =
+  supply (work (init_chain g)) + gh_withdrawn gh - amountPerPower * gh_slashed gh - gh_burned gh.
+
+(* ================================================================== S6: the collision *)
+(* Every genesis stake carries hash 0.  Two genesis validators unstake in the same block: both
+   stakes are filed in the frozen MAP under key 0, the second overwrites the first, and 100 units
+   of power (10^20 base units) vanish although nothing was slashed, burned or withdrawn. *)
+Definition collision_ops : list sop :=
+  [SBegin (demo_hdr 1 (Some 11%N));
+   SDeliver (demo_tx TRX_UNSTAKING 11%N 11%N 0 4000 0 (PUnstake 0%N true) 5%N);
+   SDeliver (demo_tx TRX_UNSTAKING 12%N 12%N 0 4000 0 (PUnstake 0%N true) 6%N);
+   SEnd; SCommit].
+
+Ltac zclosed := repeat split; vm_compute; congruence.
+
+Lemma collision_run : exists s, hrun (init_chain demo_genesis, PIdle, ghost0) collision_ops = Some (s, PIdle, ghost0).
+Proof. eexists. vm_compute. reflexivity. Qed.
+
+Lemma collision_supply s :
+  hrun (init_chain demo_genesis, PIdle, ghost0) collision_ops = Some (s, PIdle, ghost0) ->
+  supply (work s) = supply (work (init_chain demo_genesis)) - 100 * amountPerPower.
+Proof. vm_compute. intros [= <-]. vm_compute. reflexivity. Qed.
+
+Lemma genesis_hashes_collide : ~ hashes_unique (work (init_chain demo_genesis)).
+Proof.
+  intros (Hnd & _). revert Hnd. vm_compute. intros Hnd.
+  apply NoDup_cons in Hnd as (Hx & _). apply Hx. left.
+Qed.
+
+Theorem C02_collision_refuted :
+  exists g ops s p gh,
+    hrun (init_chain g, PIdle, ghost0) ops = Some (s, p, gh) /\
+    gh = ghost0 /\ p = PIdle /\
+    Forall (fun o => match o with SDeliver t => tx_wf t /\ payload_wf t /\ t_evm t = None | _ => True end) ops /\
+    params_ok (gen_params g) /\
+    supply (work s) = supply (work (init_chain g)) - 100 * amountPerPower /\
+    ~ C02_equation g s p gh /\
+    ~ hashes_unique (work (init_chain g)).
+Proof.
+  destruct collision_run as (s & Hs).
+  exists demo_genesis, collision_ops, s, PIdle, ghost0.
+  pose proof (collision_supply s Hs) as Hsup.
+  split; [exact Hs|]. split; [reflexivity|]. split; [reflexivity|].
+  split.
+  { unfold collision_ops. repeat apply Forall_cons_2; try exact I; try apply Forall_nil_2.
+    - split; [zclosed|]. split; [intros req H; discriminate H|reflexivity].
+    - split; [zclosed|]. split; [intros req H; discriminate H|reflexivity]. }
+  split; [zclosed|]. split; [exact Hsup|]. split; [|exact genesis_hashes_collide].
+  unfold C02_equation. rewrite Hsup. cbn [pending ghost0 gh_withdrawn gh_slashed gh_burned].
+  unfold amountPerPower. lia.
+Qed.
+Print Assumptions C02_collision_refuted.
+
+(* ================================================================== S5: the history theorem *)
+(* ---- the frozen map only grows between BeginBlock and EndBlock *)
+Lemma stake_execute_unstaking_frozen s2 l t l' :
+  t_type t = TRX_UNSTAKING -> stake_execute s2 l t = Ok l' -> hashes_unique l -> frozen l ⊆ frozen l'.
+Proof.
+  intros Hty He Hu. revert He. unfold stake_execute. rewrite Hty.
+  change (TRX_UNSTAKING =? TRX_STAKING) with false. change (TRX_UNSTAKING =? TRX_UNSTAKING) with true. cbv iota zeta.
+  destruct (dels l !! t_to t) as [d|] eqn:Ed; [|discriminate].
+  destruct (t_payload t) as [|hs lenok| | | | |]; try discriminate.
+  destruct (find_stake hs (d_stakes d)) as [s0|] eqn:Ef; [|discriminate].
+  destruct (negb (s_from s0 =? t_from t)%N); [discriminate|].
+  destruct (hashes_unique_delegatee _ _ _ Hu Ed) as (Hnd & Hfresh).
+  pose proof (find_stake_Some _ _ _ Ef) as (Hh & Hperm).
+  destruct (del_stake_found _ _ _ Ef) as (Hst1 & _).
+  assert (Hnd' : NoDup (s_hash <$> (s0 :: remove_stake hs (d_stakes d)))) by (rewrite <- Hperm; exact Hnd).
+  assert (Hfresh' : forall s, s ∈ s0 :: remove_stake hs (d_stakes d) -> frozen l !! s_hash s = None).
+  { intros s Hs. apply Hfresh. rewrite Hperm. exact Hs. }
+  rewrite fmap_cons in Hnd'. apply NoDup_cons in Hnd' as (Hnotin & Hnd').
+  set (refund := b_height (bctx s2) + g_lazyRewardBlocks (gparams s2)).
+  assert (H1 : frozen l ⊆ <[s_hash s0 := with_refund refund s0]> (frozen l)).
+  { apply insert_subseteq. apply Hfresh', elem_of_cons. auto. }
+  destruct (d_self (del_stake d hs) =? 0).
+  - unfold del_all_stakes. cbn [d_total d_stakes].
+    assert (H2 : frozen l ⊆ freeze_all (<[s_hash s0 := with_refund refund s0]> (frozen l)) refund (d_stakes (del_stake d hs))).
+    { etransitivity; [exact H1|]. apply freeze_all_subseteq. rewrite Hst1. intros s Hs.
+      rewrite lookup_insert_ne.
+      - apply Hfresh', elem_of_cons. auto.
+      - intros Heq. apply Hnotin. rewrite Heq. apply elem_of_list_fmap. exists s. auto. }
+    destruct (d_total (del_stake d hs) - sum_power (d_stakes (del_stake d hs)) =? 0); intros [= Heq]; subst l'; exact H2.
+  - destruct (d_total (del_stake d hs) =? 0); intros [= Heq]; subst l'; exact H1.
+Qed.
+
+Lemma exec_native_frozen s1 s2 t l' lim' r :
+  validated_of s1 r t = Ok lim' -> evm_path_of t r = false -> exec_native s2 t = Ok l' ->
+  (t_type t = TRX_UNSTAKING -> hashes_unique (work s2)) ->
+  frozen (work s2) ⊆ frozen l'.
+Proof.
+  intros Hv Hp He Hun.
+  destruct (validated_native_types _ _ _ _ Hv Hp) as [Hty|[Hty|[Hty|[Hty|[Hty|[Hty|Hty]]]]]].
+  - rewrite exec_native_transfer in He by exact Hty.
+    apply acct_execute_transfer_inv in He as (? & ? & ? & ? & _ & _ & _ & _ & ->); [reflexivity|exact Hty].
+  - rewrite exec_native_staking in He by exact Hty.
+    apply stake_execute_staking_inv in He as (? & ? & ? & _ & _ & _ & ->); [reflexivity|exact Hty].
+  - rewrite exec_native_unstaking in He by exact Hty.
+    apply (stake_execute_unstaking_frozen _ _ _ _ Hty He (Hun Hty)).
+  - rewrite exec_native_proposal in He by exact Hty. apply gov_execute_accts in He as (_ & _ & Hf & _). rewrite Hf. reflexivity.
+  - rewrite exec_native_voting in He by exact Hty. apply gov_execute_accts in He as (_ & _ & Hf & _). rewrite Hf. reflexivity.
+  - rewrite exec_native_setdoc in He by exact Hty.
+    apply acct_execute_setdoc_inv in He as (? & ? & _ & _ & _ & _ & ->); [reflexivity|exact Hty].
+  - rewrite exec_native_withdraw in He by exact Hty.
+    apply stake_execute_withdraw_inv in He as (? & ? & ? & ? & ? & _ & _ & _ & _ & ->); [reflexivity|exact Hty].
+Qed.
+
+Lemma deliver_native_frozen s t s' g :
+  deliver s t = (s', Ok g) -> native s t -> (t_type t = TRX_UNSTAKING -> hashes_unique (work s)) ->
+  frozen (work s) ⊆ frozen (work s').
+Proof.
+  intros Hd Hn Hun.
+  apply deliver_ok_inv in Hd as (sender & lim' & Hs & H0 & H1 & Hv & Hd). cbv zeta in Hd.
+  rewrite receiver_of_eq in Hv, Hd. unfold native in Hn. rewrite Hn in Hd.
+  destruct Hd as (l' & snd' & snd'' & He & _ & _ & _ & ->). cbn [work with_bctx with_work].
+  rewrite frozen_set_acct.
+  destruct (find_or_new_spec (work s) (t_to t)) as (_ & _ & _ & _ & _ & Hd0 & Hf0 & _).
+  rewrite <- Hf0. apply (exec_native_frozen _ _ _ _ _ _ Hv Hn He).
+  intros Hty. cbn [work with_lim]. rewrite pre_state_work.
+  apply (hashes_unique_same (work s)); [exact Hd0|exact Hf0|exact (Hun Hty)].
+Qed.
+
+(* ---- refunds are bounded by the unbonding power *)
+Lemma sumZ_with_le {A} (f g : A -> Z) l : (forall x, x ∈ l -> f x <= g x) -> sumZ_with f l <= sumZ_with g l.
+Proof.
+  induction l as [|x l IH]; intros H; simpl; [lia|].
+  assert (f x <= g x) by (apply H, elem_of_cons; auto).
+  assert (sumZ_with f l <= sumZ_with g l) by (apply IH; intros y Hy; apply H, elem_of_cons; auto). lia.
+Qed.
+
+Lemma sumZ_with_scale {A} (c : Z) (f : A -> Z) l : sumZ_with (fun x => c * f x) l = c * sumZ_with f l.
+Proof. induction l as [|x l IH]; simpl; [lia|]. rewrite IH. lia. Qed.
+
+Lemma map_sum_subseteq {A} (f : A -> Z) (m1 m2 : gmap N A) :
+  m1 ⊆ m2 -> (forall k x, m2 !! k = Some x -> 0 <= f x) -> map_sum f m1 <= map_sum f m2.
+Proof.
+  intros Hsub Hnn. unfold map_sum.
+  destruct (submseteq_Permutation _ _ (map_to_list_submseteq _ _ Hsub)) as (k & Hk).
+  rewrite (sumZ_with_perm _ _ _ Hk), sumZ_with_app.
+  assert (0 <= sumZ_with (fun kv : N * A => f kv.2) k); [|lia].
+  assert (Hin : forall kv, kv ∈ k -> 0 <= f kv.2).
+  { intros [i x] Hi. apply (Hnn i x). apply elem_of_map_to_list. rewrite Hk. apply elem_of_app. auto. }
+  clear Hk. induction k as [|kv k IH]; simpl; [lia|].
+  assert (0 <= f kv.2) by (apply Hin, elem_of_cons; auto).
+  assert (0 <= sumZ_with (fun kv0 : N * A => f kv0.2) k) by (apply IH; intros y Hy; apply Hin, elem_of_cons; auto). lia.
+Qed.
+
+Lemma refunds_le_frozen (fr : gmap hash stake) h a :
+  (forall k s0, fr !! k = Some s0 -> 0 <= s_power s0 < two63) ->
+  refunds_to (sorted_items fr) h a <= amountPerPower * map_sum s_power fr.
+Proof.
+  intros Hp. unfold refunds_to, map_sum. rewrite (sumZ_with_perm _ _ _ (sorted_items_perm fr)).
+  rewrite <- sumZ_with_scale. apply sumZ_with_le. intros [k s0] Hin. apply elem_of_map_to_list in Hin.
+  specialize (Hp k s0 Hin). unfold refund_of. cbn [snd].
+  assert (0 < amountPerPower) by (unfold amountPerPower; lia).
+  destruct (_ && _); [rewrite power_to_amount_exact by exact Hp; lia|nia].
+Qed.
+
+(* ---- genesis *)
+Lemma foldl_frozen_preserved {A} (f : ledgers -> A -> ledgers) (xs : list A) :
+  (forall l x, frozen (f l x) = frozen l) -> forall l, frozen (foldl f l xs) = frozen l.
+Proof. intros Hf. induction xs as [|x xs IH]; intros l; [reflexivity|]. cbn [foldl]. rewrite IH. apply Hf. Qed.
+
+Lemma init_chain_frozen g : frozen (work (init_chain g)) = ∅ /\ committed (init_chain g) = [].
+Proof.
+  split; [|reflexivity]. unfold init_chain. cbn [work].
+  rewrite foldl_frozen_preserved by (intros; reflexivity).
+  rewrite foldl_frozen_preserved by (intros l v; apply find_or_new_spec).
+  rewrite foldl_frozen_preserved by (intros; reflexivity). reflexivity.
+Qed.
+
+(* ---- what is assumed of every state along the run (C11 territory, discharged elsewhere for runs
+   that avoid the genesis-hash collision): stake hashes unique, delegatee totals consistent,
+   powers in the int64 range, parameters in range *)
+Definition powers_ok (l : ledgers) : Prop :=
+  forall s, s ∈ bonded_stakes l ++ frozen_stakes l -> 0 <= s_power s < two63.
+Definition run_ok (s : state) : Prop :=
+  hashes_unique (work s) /\ totals_ok (work s) /\ powers_ok (work s) /\ params_ok (gparams s).
+
+Fixpoint along (Q : state -> Prop) (s : state) (ops : list sop) : Prop :=
+  Q s /\ match ops with [] => True | o :: r => along Q (sstep s o) r end.
+
+Lemma along_prefixes (Q : state -> Prop) ops : forall s, (forall pre, pre `prefix_of` ops -> Q (srun s pre)) -> along Q s ops.
+Proof.
+  induction ops as [|o ops IH]; intros s H; cbn [along].
+  - split; [apply (H []); reflexivity|exact I].
+  - split; [apply (H []); apply prefix_nil|]. apply IH. intros pre Hpre.
+    apply (H (o :: pre)). apply prefix_cons. exact Hpre.
+Qed.
+
+(* delivered transactions: Go-typed fields; EVM executions are outside this theorem (their effect
+   is an oracle, see [deliver_evm_supply]): with [t_evm = None] a transaction that reaches the EVM fails *)
+Definition txs_ok (ops : list sop) : Prop :=
+  Forall (fun o => match o with SDeliver t => tx_wf t /\ payload_wf t /\ t_evm t = None | _ => True end) ops.
+
+(* the bound under which nothing wraps: everything that ever exists fits the int64 power range *)
+Definition supply_bound : Z := two63 * amountPerPower.
+
+Lemma supply_bound_lt : supply_bound < two255 /\ supply_bound <= two64 * amountPerPower.
+Proof. split; vm_compute; congruence. Qed.
+
+(* the invariant carried along a history; [S0] = genesis supply *)
+Definition hist_inv (S0 : Z) (x : state * phase * ghost) : Prop :=
+  let '(s, p, gh) := x in
+  supply (work s) + pending p s = S0 + gh_withdrawn gh - amountPerPower * gh_slashed gh - gh_burned gh /\
+  bal_range (work s) /\
+  0 <= gh_withdrawn gh /\ 0 <= gh_slashed gh /\ 0 <= gh_burned gh /\
+  (p = POpen -> 0 <= b_feesum (bctx s) < two256) /\
+  match p with
+  | PIdle => frozen (base_of s) = frozen (work s)
+  | POpen => frozen (base_of s) ⊆ frozen (work s)
+  | PEnded => True end.
+
+Lemma powers_ok_parts l : powers_ok l ->
+  0 <= bonded_power l /\ 0 <= frozen_power l /\
+  (forall k s0, frozen l !! k = Some s0 -> 0 <= s_power s0 < two63) /\ bonded_nonneg l.
+Proof.
+  intros Hp.
+  assert (Hfr : forall k s0, frozen l !! k = Some s0 -> 0 <= s_power s0 < two63).
+  { intros k s0 Hk. apply Hp. apply elem_of_app. right. unfold frozen_stakes.
+    apply elem_of_list_fmap. exists (k, s0). split; [reflexivity|]. apply elem_of_map_to_list. exact Hk. }
+  assert (Hbn : bonded_nonneg l).
+  { intros a d Hd. apply Forall_forall. intros s Hs.
+    assert (0 <= s_power s < two63); [|lia]. apply Hp. apply elem_of_app. left. eapply elem_of_bonded; eassumption. }
+  split; [|split; [|split; assumption]].
+  - rewrite bonded_power_map_sum. apply map_sum_nonneg. intros a d Hd. apply sum_power_nonneg. apply (Hbn a d Hd).
+  - rewrite frozen_power_map_sum. apply map_sum_nonneg. intros k s0 Hk. apply (Hfr k s0 Hk).
+Qed.
+
+(* every balance is below the bound while the invariant holds *)
+Lemma hist_inv_bal S0 s p gh W :
+  hist_inv S0 (s, p, gh) -> powers_ok (work s) -> gh_withdrawn gh <= W ->
+  total_balance (work s) + pending p s <= S0 + W /\ 0 <= pending p s /\
+  supply (work s) + pending p s <= S0 + W /\
+  forall a, 0 <= bal_of (work s) a <= S0 + W.
+Proof.
+  intros (Heq & Hr & Hw & Hsl & Hb & Hfs & _) Hp HW.
+  destruct (powers_ok_parts _ Hp) as (Hbp & Hfp & _).
+  assert (Happ : 0 < amountPerPower) by (unfold amountPerPower; lia).
+  assert (Hpend : 0 <= pending p s) by (destruct p; cbn [pending]; try lia; apply Hfs; reflexivity).
+  assert (Hsup : supply (work s) + pending p s <= S0 + W) by nia.
+  assert (Htb : total_balance (work s) + pending p s <= S0 + W) by (unfold supply in Hsup; nia).
+  split; [exact Htb|]. split; [exact Hpend|]. split; [exact Hsup|].
+  intros a. pose proof (bal_le_total _ a Hr). pose proof (bal_range_bal_of _ a Hr). lia.
+Qed.
+
+Lemma begin_block_committed s hd : committed (begin_block s hd).1 = committed s.
+Proof.
+  unfold begin_block. destruct (negb (h_height hd =? last_height s + 1)); [reflexivity|]. cbv zeta.
+  destruct (h_votes hd); [reflexivity|]. destruct (process_votes _ _ _ _) as [[l3 i]|e|pp]; reflexivity.
+Qed.
+
+Lemma base_of_same s s' : committed s' = committed s -> gparams s' = gparams s -> base_of s' = base_of s.
+Proof. intros Hc Hg. unfold base_of. rewrite Hc, Hg. reflexivity. Qed.
+
+Lemma hist_step_begin S0 s gh hd s' x :
+  begin_block s hd = (s', Ok x) -> h_height hd = last_height s + 1 -> run_ok s ->
+  hist_inv S0 (s, PIdle, gh) ->
+  hist_inv S0 (s', POpen, {| gh_withdrawn := gh_withdrawn gh; gh_slashed := gh_slashed gh + slashed_power s hd;
+                             gh_burned := gh_burned gh |}).
+Proof.
+  intros Hb Hh (Hu & _ & Hpw & Hpar) (Heq & Hr & Hw & Hsl & Hbn & _ & Hfz).
+  destruct (powers_ok_parts _ Hpw) as (_ & _ & _ & Hnn).
+  assert (Hratio : 0 <= g_slashRatio (gparams s) <= 100) by (destruct Hpar as (_ & _ & _ & Hx & _); exact Hx).
+  destruct (begin_block_supply _ _ _ _ Hb Hh Hratio Hu Hnn) as (Hs & Hsn & Ha & _ & Hsub).
+  destruct (begin_block_feesum _ _ _ _ Hb Hh) as (Hf0 & _).
+  assert (Hbase : base_of s' = base_of s).
+  { apply base_of_same.
+    - pose proof (begin_block_committed s hd) as H. rewrite Hb in H. exact H.
+    - pose proof (begin_block_gparams s hd) as H. rewrite Hb in H. exact H. }
+  cbn [hist_inv pending gh_withdrawn gh_slashed gh_burned] in *.
+  split; [rewrite Hs, Hf0; lia|]. split; [intros a y; rewrite Ha; apply Hr|].
+  split; [exact Hw|]. split; [lia|]. split; [exact Hbn|].
+  split; [intros _; rewrite Hf0; pose proof two256_pos; lia|].
+  rewrite Hbase, Hfz. exact Hsub.
+Qed.
+
+Lemma deliver_ok_funds s t s' g :
+  deliver s t = (s', Ok g) -> params_ok (gparams s) -> tx_wf t ->
+  fee_of t + t_amount t <= bal_of (work s) (t_from t) /\ fee_of t < two255 /\ t_amount t < two255.
+Proof.
+  intros Hd Hpar Hwf. apply deliver_ok_inv in Hd as (sender & lim' & Hs & H0 & H1 & _).
+  pose proof Hwf as (Hamt & _ & Hgas & _).
+  pose proof (fee_lt_two255 _ _ Hpar H0 (proj1 Hgas)) as Hfee.
+  apply common_validation1_None in H1 as (Hfund & _).
+  apply common_validation0_None in H0 as (_ & _ & Hsa & _).
+  apply sign256_nonneg_iff in Hsa; [|lia].
+  pose proof (fee_of_range t) as Hfr. pose proof two255_two256 as H25.
+  rewrite add256_small in Hfund by lia. rewrite (bal_of_lookup _ _ _ Hs). lia.
+Qed.
+
+Lemma withdrawn_of_nonneg t : payload_wf t -> 0 <= withdrawn_of t.
+Proof.
+  intros Hp. unfold withdrawn_of. destruct (t_type t =? TRX_WITHDRAW) eqn:E; [|lia]. apply Z.eqb_eq in E.
+  destruct (t_payload t) as [| |req| | | |] eqn:Epl; try lia. specialize (Hp req E Epl). lia.
+Qed.
+
+Lemma room_for_bound l t a :
+  (t_type t = TRX_TRANSFER -> t_from t <> t_to t -> a = t_to t -> bal_of l a + t_amount t < two256) ->
+  0 <= withdrawn_of t -> bal_of l a + withdrawn_of t < two256 ->
+  room_for l t a.
+Proof.
+  intros Htr Hwn Hw. unfold room_for, tx_in, withdrawn_of in *.
+  destruct (t_type t =? TRX_TRANSFER) eqn:E1.
+  - apply Z.eqb_eq in E1. destruct (decide (a = t_from t)) as [Haf|Haf]; [left; auto|]. right.
+    destruct (decide (a = t_to t)) as [Hat|Hat]; [|lia]. apply Htr; [exact E1|congruence|exact Hat].
+  - right. destruct (t_type t =? TRX_WITHDRAW); [|lia].
+    destruct (t_payload t); try lia. destruct (decide (a = t_from t)); lia.
+Qed.
+
+Lemma native_of_ok s t s' g : deliver s t = (s', Ok g) -> t_evm t = None -> native s t.
+Proof.
+  intros Hd He. apply deliver_ok_inv in Hd as (sender & lim' & _ & _ & _ & _ & Hd). cbv zeta in Hd.
+  rewrite receiver_of_eq in Hd. unfold native.
+  destruct (evm_path_of t (acct_of (work s) (t_to t))); [|reflexivity].
+  destruct Hd as (l' & Hx & _). unfold evm_execute in Hx. rewrite He in Hx. discriminate.
+Qed.
+
+Lemma hist_step_deliver_ok S0 s gh t s' g :
+  deliver s t = (s', Ok g) -> run_ok s -> tx_wf t -> payload_wf t -> t_evm t = None ->
+  hist_inv S0 (s, POpen, gh) -> S0 + (gh_withdrawn gh + withdrawn_of t) < supply_bound ->
+  hist_inv S0 (s', POpen, {| gh_withdrawn := gh_withdrawn gh + withdrawn_of t; gh_slashed := gh_slashed gh;
+                             gh_burned := gh_burned gh |}).
+Proof.
+  intros Hd (Hu & Htot & Hpw & Hpar) Hwf Hpl Hevm Hinv Hbound.
+  pose proof (native_of_ok _ _ _ _ Hd Hevm) as Hn.
+  pose proof (withdrawn_of_nonneg _ Hpl) as Hwn.
+  destruct (hist_inv_bal S0 s POpen gh (gh_withdrawn gh) Hinv Hpw ltac:(lia)) as (Htb & Hpend & Hsup & Hbal).
+  destruct Hinv as (Heq & Hr & Hw & Hsl & Hbn & Hfs & Hfz).
+  destruct supply_bound_lt as (Hb255 & Hb64). pose proof two255_two256 as H25.
+  destruct (deliver_ok_funds _ _ _ _ Hd Hpar Hwf) as (Hfund & Hfee & Hamt).
+  pose proof (fee_of_range t) as Hfr. pose proof Hwf as ((Ha0 & _) & _).
+  assert (Hroom : forall a, room_for (work s) t a).
+  { intros a. apply room_for_bound; [|exact Hwn|pose proof (Hbal a); lia].
+    intros _ Hne ->. pose proof (bal2_le_total (work s) (t_to t) (t_from t) Hr ltac:(congruence)). lia. }
+  assert (Hstk : stake_amount_ok t). { intros _. pose proof (Hbal (t_from t)). lia. }
+  assert (Hun : unstake_ok (work s) t) by (intros _; auto).
+  pose proof (deliver_native_supply _ _ _ _ Hd Hn Hwf Hpl Hr (Hroom _) (Hroom _) Hstk Hun) as Hs'.
+  destruct (deliver_native_balances _ _ _ _ Hd Hn Hwf Hpl Hr) as (_ & Hr' & _).
+  pose proof (deliver_native_feesum _ _ _ _ Hd Hn) as Hf'.
+  destruct (deliver_bctx _ _ _ _ Hd) as (_ & _ & _ & Hg & Hc & _).
+  pose proof (deliver_native_frozen _ _ _ _ Hd Hn ltac:(intros _; exact Hu)) as Hsub.
+  cbn [pending] in *. specialize (Hfs eq_refl).
+  assert (Hexact : b_feesum (bctx s') = b_feesum (bctx s) + fee_of t).
+  { rewrite Hf'. apply add256_small. pose proof (Hbal (t_from t)). pose proof (bal_le_total _ (t_from t) Hr). lia. }
+  cbn [hist_inv pending gh_withdrawn gh_slashed gh_burned].
+  split; [rewrite Hs', Hexact; lia|]. split; [exact Hr'|]. split; [lia|]. split; [exact Hsl|]. split; [exact Hbn|].
+  split; [intros _; rewrite Hf'; apply add256_range|].
+  rewrite (base_of_same _ _ Hc Hg). etransitivity; eassumption.
+Qed.
+
+Lemma hist_step_deliver_fail S0 s gh t s' r :
+  deliver s t = (s', r) -> (forall g, r <> Ok g) -> run_ok s -> tx_wf t -> payload_wf t ->
+  hist_inv S0 (s, POpen, gh) -> S0 + gh_withdrawn gh < supply_bound ->
+  hist_inv S0 (s', POpen, gh).
+Proof.
+  intros Hd Hnok (Hu & Htot & Hpw & Hpar) Hwf Hpl Hinv Hbound.
+  destruct (hist_inv_bal S0 s POpen gh (gh_withdrawn gh) Hinv Hpw ltac:(lia)) as (_ & _ & _ & Hbal).
+  destruct Hinv as (Heq & Hr & Hw & Hsl & Hbn & Hfs & Hfz).
+  destruct supply_bound_lt as (Hb255 & _).
+  assert (Hlt : bal_of (work s) (t_from t) < two255) by (pose proof (Hbal (t_from t)); lia).
+  destruct (deliver_fail_supply _ _ _ _ Hd Hnok Hwf Hpl Hpar Hr Hlt) as (Hs' & Hr' & Hf').
+  destruct (deliver_bctx _ _ _ _ Hd) as (_ & _ & Hfsum & Hg & Hc & _).
+  assert (Hfsame : b_feesum (bctx s') = b_feesum (bctx s)).
+  { destruct r as [g|e|p]; [exfalso; apply (Hnok g); reflexivity|exact Hfsum..]. }
+  cbn [hist_inv pending] in *.
+  split; [rewrite Hs', Hfsame; exact Heq|]. split; [exact Hr'|]. split; [exact Hw|]. split; [exact Hsl|].
+  split; [exact Hbn|]. split; [rewrite Hfsame; exact Hfs|].
+  rewrite (base_of_same _ _ Hc Hg), Hf'. exact Hfz.
+Qed.
+
+Lemma paid_le_feesum b : 0 <= b_feesum b -> 0 <= paid_fees b <= b_feesum b.
+Proof. intros H. unfold paid_fees. destruct (b_proposer b); [destruct (0 <? sign256 (b_feesum b))|]; lia. Qed.
+
+Lemma end_fee_le b a : 0 <= b_feesum b -> 0 <= end_fee b a <= b_feesum b.
+Proof.
+  intros H. unfold end_fee. destruct (decide (b_proposer b = Some a)); [destruct (0 <? sign256 (b_feesum b))|]; lia.
+Qed.
+
+Lemma hist_step_end S0 s gh s' ups :
+  end_block s = (s', Ok ups) -> run_ok s ->
+  hist_inv S0 (s, POpen, gh) -> S0 + gh_withdrawn gh < supply_bound ->
+  hist_inv S0 (s', PEnded, {| gh_withdrawn := gh_withdrawn gh; gh_slashed := gh_slashed gh;
+                              gh_burned := gh_burned gh + (b_feesum (bctx s) - paid_fees (bctx s)) |}).
+Proof.
+  intros He (Hu & Htot & Hpw & Hpar) Hinv Hbound.
+  destruct (hist_inv_bal S0 s POpen gh (gh_withdrawn gh) Hinv Hpw ltac:(lia)) as (Htb & Hpend & Hsup & Hbal).
+  destruct Hinv as (Heq & Hr & Hw & Hsl & Hbn & Hfs & Hfz).
+  destruct (powers_ok_parts _ Hpw) as (Hbp & Hfp & Hfr & _).
+  destruct supply_bound_lt as (Hb255 & _). pose proof two255_two256 as H25.
+  cbn [pending] in *. specialize (Hfs eq_refl).
+  assert (Hsync : frozen_synced s).
+  { intros k s0 Hk _. pose proof (lookup_weaken _ _ _ _ Hk Hfz) as Hk'.
+    split; [apply (Hfr k s0 Hk')|]. exists s0. auto. }
+  assert (Hroom : forall a, bal_of (work s) a + end_fee (bctx s) a +
+             refunds_to (sorted_items (frozen (base_of s))) (b_height (bctx s)) a < two256).
+  { intros a.
+    pose proof (end_fee_le (bctx s) a (proj1 Hfs)) as Hef.
+    assert (Hrf : refunds_to (sorted_items (frozen (base_of s))) (b_height (bctx s)) a
+                  <= amountPerPower * frozen_power (work s)).
+    { etransitivity; [apply refunds_le_frozen|].
+      - intros k s0 Hk. apply (Hfr k s0). apply (lookup_weaken _ _ _ _ Hk Hfz).
+      - rewrite frozen_power_map_sum.
+        assert (Happ : 0 < amountPerPower) by (unfold amountPerPower; lia).
+        apply Z.mul_le_mono_nonneg_l; [lia|]. apply map_sum_subseteq; [exact Hfz|].
+        intros k x Hk. apply (Hfr k x Hk). }
+    pose proof (bal_le_total _ a Hr) as Hbt.
+    assert (Happ : 0 < amountPerPower) by (unfold amountPerPower; lia).
+    unfold supply in Hsup. nia. }
+  pose proof (end_block_supply _ _ _ He Hr Hfs Hsync Hroom) as Hs'.
+  destruct (end_block_balances _ _ _ He Hr Hfs) as (Hr' & _).
+  pose proof (paid_le_feesum (bctx s) (proj1 Hfs)) as Hpaid.
+  cbn [hist_inv pending gh_withdrawn gh_slashed gh_burned].
+  split; [rewrite Hs'; lia|]. split; [exact Hr'|]. split; [exact Hw|]. split; [exact Hsl|]. split; [lia|].
+  split; [discriminate|exact I].
+Qed.
+
+Lemma hist_step_commit S0 s gh :
+  hist_inv S0 (s, PEnded, gh) -> hist_inv S0 (commit s, PIdle, gh).
+Proof.
+  intros (Heq & Hr & Hw & Hsl & Hbn & _ & _). cbn [hist_inv pending] in *.
+  split; [exact Heq|]. split; [exact Hr|]. split; [exact Hw|]. split; [exact Hsl|]. split; [exact Hbn|].
+  split; [discriminate|]. unfold base_of, commit. cbn [committed work]. rewrite last_snoc. reflexivity.
+Qed.
+
+(* withdrawn totals only grow *)
+Lemma hstep_withdrawn_mono s p gh o s' p' gh' :
+  hstep (s, p, gh) o = Some (s', p', gh') ->
+  (match o with SDeliver t => payload_wf t | _ => True end) ->
+  gh_withdrawn gh <= gh_withdrawn gh'.
+Proof.
+  unfold hstep. destruct p, o as [hd|t| |]; try discriminate.
+  - destruct (h_height hd =? last_height s + 1); [|discriminate].
+    destruct (begin_block s hd) as [s1 [x|e|pp]]; [|discriminate..]. intros [= _ _ <-] _. cbn. lia.
+  - destruct (deliver s t) as [s1 [x|e|pp]]; intros [= _ _ <-] Hp; cbn; try lia.
+    pose proof (withdrawn_of_nonneg _ Hp). lia.
+  - destruct (end_block s) as [s1 [x|e|pp]]; [|discriminate..]. intros [= _ _ <-] _. cbn. lia.
+  - intros [= _ _ <-] _. lia.
+Qed.
+
+Lemma hrun_withdrawn_mono ops : forall s p gh s' p' gh',
+  hrun (s, p, gh) ops = Some (s', p', gh') -> txs_ok ops -> gh_withdrawn gh <= gh_withdrawn gh'.
+Proof.
+  induction ops as [|o ops IH]; intros s p gh s' p' gh'; cbn [hrun].
+  - intros [= _ _ <-] _. lia.
+  - destruct (hstep (s, p, gh) o) as [[[s1 p1] gh1]|] eqn:E; [|discriminate].
+    intros H Htx. apply Forall_cons in Htx as (Ho & Htx).
+    pose proof (hstep_withdrawn_mono _ _ _ _ _ _ _ E) as H1.
+    pose proof (IH _ _ _ _ _ _ H Htx) as H2.
+    assert (gh_withdrawn gh <= gh_withdrawn gh1); [|lia].
+    apply H1. destruct o; try exact I. apply Ho.
+Qed.
+
+Lemma hist_step S0 s p gh o s' p' gh' :
+  hstep (s, p, gh) o = Some (s', p', gh') -> run_ok s ->
+  (match o with SDeliver t => tx_wf t /\ payload_wf t /\ t_evm t = None | _ => True end) ->
+  hist_inv S0 (s, p, gh) -> S0 + gh_withdrawn gh' < supply_bound ->
+  hist_inv S0 (s', p', gh').
+Proof.
+  intros Hst Hok Ho Hinv Hbound.
+  assert (Hmono : gh_withdrawn gh <= gh_withdrawn gh').
+  { apply (hstep_withdrawn_mono _ _ _ _ _ _ _ Hst). destruct o; try exact I. apply Ho. }
+  revert Hst. unfold hstep. destruct p, o as [hd|t| |]; try discriminate.
+  - destruct (h_height hd =? last_height s + 1) eqn:Eh; [|discriminate]. apply Z.eqb_eq in Eh.
+    destruct (begin_block s hd) as [s1 [x|e|pp]] eqn:Eb; [|discriminate..]. intros [= <- <- <-].
+    apply (hist_step_begin _ _ _ _ _ _ Eb Eh Hok Hinv).
+  - destruct Ho as (Hwf & Hpl & Hevm).
+    destruct (deliver s t) as [s1 [x|e|pp]] eqn:Ed; intros [= <- <- <-].
+    + apply (hist_step_deliver_ok _ _ _ _ _ _ Ed Hok Hwf Hpl Hevm Hinv). exact Hbound.
+    + apply (hist_step_deliver_fail _ _ _ _ _ _ Ed); try assumption. intros g; discriminate.
+    + apply (hist_step_deliver_fail _ _ _ _ _ _ Ed); try assumption. intros g; discriminate.
+  - destruct (end_block s) as [s1 [x|e|pp]] eqn:Ee; [|discriminate..]. intros [= <- <- <-].
+    apply (hist_step_end _ _ _ _ _ Ee Hok Hinv). exact Hbound.
+  - intros [= <- <- <-]. apply hist_step_commit. exact Hinv.
+Qed.
+
+Lemma hist_run S0 ops : forall s p gh s' p' gh',
+  hrun (s, p, gh) ops = Some (s', p', gh') -> along run_ok s ops -> txs_ok ops ->
+  hist_inv S0 (s, p, gh) -> S0 + gh_withdrawn gh' < supply_bound ->
+  hist_inv S0 (s', p', gh').
+Proof.
+  induction ops as [|o ops IH]; intros s p gh s' p' gh'; cbn [hrun along].
+  - intros [= <- <- <-] _ _ Hinv _. exact Hinv.
+  - destruct (hstep (s, p, gh) o) as [[[s1 p1] gh1]|] eqn:E; [|discriminate].
+    intros H (Hok & Hal) Htx Hinv Hbound. apply Forall_cons in Htx as (Ho & Htx).
+    pose proof (hstep_sstep _ _ _ _ _ _ _ E) as Hs1. subst s1.
+    pose proof (hrun_withdrawn_mono _ _ _ _ _ _ _ H Htx) as Hmono.
+    apply (IH _ _ _ _ _ _ H Hal Htx); [|exact Hbound].
+    apply (hist_step _ _ _ _ _ _ _ _ E Hok Ho Hinv). lia.
+Qed.
+
+(* C02, history form.  For every genesis [g] and every history [ops] of a live node (ABCI order,
+   BeginBlock / EndBlock succeed), if
+   - the stake-ledger invariants and parameter ranges [run_ok] hold in every state of the run
+     (C11; they fail exactly for runs that hit the genesis-hash collision, [C02_collision_refuted]),
+   - delivered transactions carry Go-typed fields and no EVM execution succeeds ([txs_ok]),
+   - genesis balances are in range and genesis supply + all rewards withdrawn during the run stay
+     below 2^63 * 10^18 base units,
+   then after the run: balances + bonded + unbonding (+ the fee sum of the open block) equal the
+   genesis total + withdrawn rewards - slashed stake - fees not paid out (no proposer), and no
+   balance has wrapped (all in [0, 2^256), in fact below the bound). *)
+Theorem C02_history g ops s p gh :
+  hrun (init_chain g, PIdle, ghost0) ops = Some (s, p, gh) ->
+  (forall pre, pre `prefix_of` ops -> run_ok (srun (init_chain g) pre)) ->
+  txs_ok ops ->
+  bal_range (work (init_chain g)) ->
+  supply (work (init_chain g)) + gh_withdrawn gh < supply_bound ->
+  s = srun (init_chain g) ops /\
+  C02_equation g s p gh /\
+  bal_range (work s) /\
+  (forall a, 0 <= bal_of (work s) a < supply_bound) /\
+  0 <= gh_withdrawn gh /\ 0 <= gh_slashed gh /\ 0 <= gh_burned gh.
+Proof.
+  intros Hrun Hok Htx Hr0 Hbound.
+  split; [apply (hrun_srun _ _ _ _ _ _ _ Hrun)|].
+  assert (Hinv0 : hist_inv (supply (work (init_chain g))) (init_chain g, PIdle, ghost0)).
+  { cbn [hist_inv pending ghost0 gh_withdrawn gh_slashed gh_burned].
+    split; [lia|]. split; [exact Hr0|]. split; [lia|]. split; [lia|]. split; [lia|]. split; [discriminate|].
+    destruct (init_chain_frozen g) as (Hf & Hc). unfold base_of. rewrite Hc, Hf. reflexivity. }
+  pose proof (hist_run _ _ _ _ _ _ _ _ Hrun (along_prefixes _ _ _ Hok) Htx Hinv0 Hbound) as Hinv.
+  assert (Hpw : powers_ok (work s)).
+  { pose proof (hrun_srun _ _ _ _ _ _ _ Hrun) as ->. apply (Hok ops). reflexivity. }
+  destruct (hist_inv_bal _ _ _ _ (gh_withdrawn gh) Hinv Hpw ltac:(lia)) as (_ & _ & _ & Hbal).
+  destruct Hinv as (Heq & Hr & Hw & Hsl & Hbn & _).
+  split; [exact Heq|]. split; [exact Hr|]. split; [intros a; specialize (Hbal a); lia|]. auto.
+Qed.
+Print Assumptions C02_history.
+
+(* ================================================================== examples: the hypotheses are satisfiable *)
+Fixpoint alongb (f : state -> bool) (s : state) (ops : list sop) : bool :=
+  f s && match ops with [] => true | o :: r => alongb f (sstep s o) r end.
+
+Lemma alongb_prefixes (f : state -> bool) (Q : state -> Prop) ops :
+  (forall s, f s = true -> Q s) -> forall s, alongb f s ops = true ->
+  forall pre, pre `prefix_of` ops -> Q (srun s pre).
+Proof.
+  intros HfQ. induction ops as [|o ops IH]; intros s Hb pre Hpre; cbn [alongb] in Hb;
+    apply andb_prop in Hb as (Hs & Hrest).
+  - apply prefix_nil_inv in Hpre. subst pre. apply HfQ. exact Hs.
+  - destruct pre as [|o' pre]; [apply HfQ; exact Hs|].
+    apply prefix_cons_inv_1 in Hpre as Ho. subst o'. apply prefix_cons_inv_2 in Hpre.
+    unfold srun. cbn [foldl]. apply (IH _ Hrest pre Hpre).
+Qed.
+
+Definition run_okb (s : state) : bool :=
+  bool_decide (NoDup (s_hash <$> (bonded_stakes (work s) ++ frozen_stakes (work s)))) &&
+  bool_decide (map_Forall (fun (h : hash) (x : stake) => s_hash x = h) (frozen (work s))) &&
+  bool_decide (map_Forall (fun (_ : addr) (d : delegatee) => d_total d = sum_power (d_stakes d)) (dels (work s))) &&
+  bool_decide (Forall (fun x => 0 <= s_power x < two63) (bonded_stakes (work s) ++ frozen_stakes (work s))) &&
+  (let g := gparams s in
+   bool_decide (0 <= g_gasPrice g < 2 ^ 192) && bool_decide (0 <= g_minTrxGas g < two64) &&
+   bool_decide (0 <= g_rewardPerPower g < 2 ^ 192) && bool_decide (0 <= g_slashRatio g <= 100) &&
+   bool_decide (0 < g_maxValidatorCnt g) &&
+   bool_decide (amountPerPower <= g_minValidatorStake g < two63 * amountPerPower) &&
+   bool_decide (0 <= g_minDelegatorStake g < two63 * amountPerPower) &&
+   bool_decide (0 <= g_lazyRewardBlocks g < two63) && bool_decide (0 <= g_signedBlocksWindow g) &&
+   bool_decide (0 <= g_minSignedBlocks g) && bool_decide (0 <= g_minSelfStakeRatio g <= 100)).
+
+Lemma run_okb_sound s : run_okb s = true -> run_ok s.
+Proof.
+  unfold run_okb, run_ok. intros H.
+  repeat (apply andb_prop in H as (H & ?)).
+  repeat match goal with X : bool_decide _ = true |- _ => apply bool_decide_eq_true in X end.
+  split; [split|split; [|split]].
+  - assumption.
+  - intros h x Hx. match goal with X : map_Forall _ (frozen _) |- _ => apply (X h x Hx) end.
+  - intros a d Hd. match goal with X : map_Forall _ (dels _) |- _ => apply (X a d Hd) end.
+  - intros x Hx. match goal with X : Forall _ _ |- _ => rewrite Forall_forall in X; apply (X x Hx) end.
+  - match goal with X : _ = true |- _ => rename X into Hp end.
+    repeat (apply andb_prop in Hp as (Hp & ?)).
+    repeat match goal with X : bool_decide _ = true |- _ => apply bool_decide_eq_true in X end.
+    unfold params_ok. repeat split; lia.
+Qed.
+
+(* one validator (so no genesis-hash collision), three blocks: transfer, delegation and a failed
+   transfer; unstaking in a block without proposer (its fee is burned); reward issuance by a signed
+   vote, a reward withdrawal, and the refund of the matured unbonding stake *)
+Definition hx_params : params := {|
+  g_version := 1; g_maxValidatorCnt := 21; g_minValidatorStake := 7 * amountPerPower;
+  g_minDelegatorStake := 0; g_rewardPerPower := 1000; g_lazyRewardBlocks := 1; g_lazyApplyingBlocks := 10;
+  g_gasPrice := 10; g_minTrxGas := 4000; g_maxTrxGas := 25000000; g_maxBlockGas := 100000000;
+  g_minVotingPeriodBlocks := 1; g_maxVotingPeriodBlocks := 100; g_minSelfStakeRatio := 50;
+  g_maxUpdatableStakeRatio := 30; g_maxIndividualStakeRatio := 10000000; g_slashRatio := 50;
+  g_signedBlocksWindow := 10000; g_minSignedBlocks := 500 |}.
+Definition hx_genesis : genesis := {|
+  gen_params := hx_params;
+  gen_holders := [(1%N, 1000 * amountPerPower); (2%N, 1000 * amountPerPower); (3%N, 1000 * amountPerPower);
+                  (11%N, 1000 * amountPerPower)];
+  gen_validators := [(11%N, 100)] |}.
+Definition hx_ops : list sop :=
+  [SBegin (demo_hdr 1 (Some 11%N));
+   SDeliver (demo_tx TRX_TRANSFER 1%N 2%N (5 * amountPerPower) 4000 0 PNone 100%N);
+   SDeliver (demo_tx TRX_STAKING 3%N 11%N (20 * amountPerPower) 4000 0 PNone 102%N);
+   SDeliver (demo_tx TRX_TRANSFER 1%N 2%N amountPerPower 4000 7 PNone 103%N);
+   SEnd; SCommit;
+   SBegin (demo_hdr 2 None);
+   SDeliver (demo_tx TRX_UNSTAKING 3%N 11%N 0 4000 1 (PUnstake 102%N true) 104%N);
+   SEnd; SCommit;
+   SBegin {| h_height := 3; h_proposer := Some 11%N; h_votes := [(11%N, 120, true)]; h_evidence := [] |};
+   SDeliver (demo_tx TRX_WITHDRAW 11%N 0%N 0 4000 0 (PWithdraw 5000) 105%N);
+   SEnd; SCommit].
+
+Example C02_history_example :
+  exists s,
+    hrun (init_chain hx_genesis, PIdle, ghost0) hx_ops =
+      Some (s, PIdle, {| gh_withdrawn := 5000; gh_slashed := 0; gh_burned := 40000 |}) /\
+    (forall pre, pre `prefix_of` hx_ops -> run_ok (srun (init_chain hx_genesis) pre)) /\
+    txs_ok hx_ops /\
+    bal_range (work (init_chain hx_genesis)) /\
+    supply (work (init_chain hx_genesis)) + 5000 < supply_bound /\
+    supply (work s) = supply (work (init_chain hx_genesis)) + 5000 - 40000.
+Proof.
+  eexists. split; [vm_compute; reflexivity|].
+  split; [apply (alongb_prefixes run_okb run_ok _ run_okb_sound); vm_compute; reflexivity|].
+  split.
+  { unfold txs_ok, hx_ops. repeat apply Forall_cons_2; try exact I; try apply Forall_nil_2;
+      (split; [zclosed|split; [|reflexivity]]); intros req Hty Hp; try discriminate Hty.
+    injection Hp as <-. zclosed. }
+  split; [apply bal_range_decide; vm_compute; reflexivity|].
+  split; vm_compute; reflexivity.
 Qed.
